@@ -325,25 +325,31 @@ def r192(ctx, repo):
                     and txt(d.value.slice) == idx for d in defs):
                 safe = True
                 how = "the chunk is bound before the eviction"
-        if not safe:
-            # eviction must skip the requested index
-            guard = None
-            n = ev
-            while n is not None and not isinstance(n, ast.FunctionDef):
-                if isinstance(n, ast.If):
-                    guard = n
-                    break
-                n = getattr(n, "parent", None)
-            if guard is not None:
-                for cmpn in ast.walk(guard.test):
-                    if isinstance(cmpn, ast.Compare) and isinstance(
-                            cmpn.ops[0], ast.NotEq) and idx in names_in(cmpn):
-                        safe = True
-                        how = "the eviction skips the requested chunk"
         ctx.ob("R19.2", safe, how if safe else
                "`return self.cache[index]` after an eviction that may remove "
                "`index` (keep_chunks=1: KeyError)", node=r,
                label="returned chunk survives eviction")
+    # the eviction may exclude nothing but chunk 0: excluding the requested
+    # chunk as well leaves nothing to evict for keep_chunks=1 and the cache
+    # then holds more chunks than configured, for good
+    excl = []
+    n = ev
+    while n is not None and not isinstance(n, ast.FunctionDef):
+        if isinstance(n, ast.If):
+            for cmpn in ast.walk(n.test):
+                if isinstance(cmpn, ast.Compare) and isinstance(
+                        cmpn.ops[0], (ast.NotEq, ast.NotIn)) \
+                        and "self.cache" not in txt(cmpn) \
+                        and "len(" not in txt(cmpn):
+                    excl.append(txt(cmpn.comparators[0]))
+        n = getattr(n, "parent", None)
+    extra = [e for e in excl if e != "0"]
+    ctx.ob("R19.2", not extra,
+           "only chunk 0 is exempt from eviction (the size bound can always "
+           "be restored)" if not extra else
+           f"chunks {extra} are exempt from eviction besides chunk 0: with "
+           f"keep_chunks=1 nothing can be evicted and the cache holds more "
+           f"chunks than configured", node=ev, label="eviction exemptions")
     # chunk 0 pinned
     pinned = False
     n = ev
@@ -598,6 +604,9 @@ MUTANTS = [
      [("        chunk = self.cache[index]\n", ""),
       ("        return chunk\n", "        return self.cache[index]\n")],
      "R19.2"),
+    ("eviction also skips the requested chunk (seeded C19_2)", HU,
+     ("                if kk != 0:  # always keep the first chunk\n",
+      "                if kk != 0 and kk != index:\n"), "R19.2"),
     ("first chunk unpinned", HU,
      ("                if kk != 0:  # always keep the first chunk\n"
       "                    self.cache.pop(kk)\n"
@@ -646,11 +655,6 @@ TWINS = [
     ("chunk end min args swapped", HU,
      ("stop = min((index+1)*self._chunk_size, self.length)",
       "stop = min(self.length, self._chunk_size * (index + 1))")),
-    ("eviction skips index instead of early binding", HU,
-     [("        chunk = self.cache[index]\n", ""),
-      ("        return chunk\n", "        return self.cache[index]\n"),
-      ("                if kk != 0:  # always keep the first chunk\n",
-       "                if kk != 0 and kk != index:\n")]),
     ("boundary test mirrored", HU,
      ("elif chunk_start + toread >= self._chunk_size:",
       "elif self._chunk_size <= toread + chunk_start:")),
